@@ -3,11 +3,12 @@
    Z, N, positive, nat stay the extracted inductive types.  No Extract Constant
    or Extract Inductive of our own. *)
 From Coq Require Import ExtrOcamlBasic.
-From Model Require Import Base Uni Notation Utf8 Inputrc HistFile Dispatch Editor.
+From Model Require Import Base Uni Notation Utf8 Inputrc HistFile Dispatch Editor Grid.
 From Gen Require Import Binds.
 Extraction "rlmodel_core.ml"
   dom escape unescape unescape_range convert_meta quote
   utf8_decode utf8_encode full_rune parse read_next
   trim_space open_hist write crash_write
   match_bind loop init_state probe_exec
-  run_one ed_init cur_undo ring_top modelled_commands sources_accept ed_exec default_binds effective_binds.
+  run_one ed_init cur_undo ring_top modelled_commands sources_accept ed_exec default_binds effective_binds
+  run_selects fresh_group.
